@@ -148,9 +148,13 @@ struct Run {
 }
 
 fn verifier_run<P: G>(st: &RangeStatement<P>, proof: &RangeProof<P>, ctx: &Ctx) -> Option<Run> {
+    verifier_run_mode(st, proof, ctx, VerifyAction::VerifyOnly)
+}
+
+fn verifier_run_mode<P: G>(st: &RangeStatement<P>, proof: &RangeProof<P>, ctx: &Ctx, mode: VerifyAction) -> Option<Run> {
     merlin::observe::start();
     let mut ts = vec![ctx.transcript()];
-    let _ = catch(|| P::verify(&mut ts, std::slice::from_ref(st), std::slice::from_ref(proof), VerifyAction::VerifyOnly));
+    let _ = catch(|| P::verify(&mut ts, std::slice::from_ref(st), std::slice::from_ref(proof), mode));
     let trace = merlin::observe::take();
     Some(Run { draws: draws_of(&trace)? })
 }
@@ -316,6 +320,44 @@ fn fs_case<P: G>(cfg: Cfg) -> Box<dyn Case> {
             }
         }
 
+        // ---------------- over-long proofs: whatever the verifier draws after the rounds, data appended to the proof is in it
+        // (two proofs that differ only in an appended (L, R) pair; in every mode, with a seed where recovery is defined)
+        if !rp.l.is_empty() {
+            let hb = built.params.h_base().clone();
+            let st_modes = if cfg.m == 1 {
+                restate(&built, built.commitments.clone(), wit.promises.clone(), Some(seed_scalar(4))).ok()
+            } else {
+                Some(built.statement.clone())
+            };
+            let x_bytes = mutate::apply::<P>(&rp, &Mut::AppendRounds(1), &hb);
+            let y_bytes = x_bytes.as_ref().and_then(|b| refbp::ref_decode(b)).and_then(|x| mutate::apply::<P>(&x, &Mut::PointPlusH(PPos::L(k)), &hb));
+            if let (Some(st), Some(xb), Some(yb)) = (st_modes, x_bytes, y_bytes) {
+                if let (Ok(px), Ok(py)) = (P::from_bytes(&xb), P::from_bytes(&yb)) {
+                    for mode in MODES {
+                        let (vx, vy) = (verifier_run_mode::<P>(&st, &px, &ctx, mode), verifier_run_mode::<P>(&st, &py, &ctx, mode));
+                        res.executions += 2;
+                        if let (Some(vx), Some(vy)) = (vx, vy) {
+                            let (nx, ny) = (vx.draws.bytes.len(), vy.draws.bytes.len());
+                            *res.outcome_counter(&format!("over-long-proof-draws:{}", nx)) += 1;
+                            // draws after the k honest rounds (an extra round challenge, the final challenge) come after the
+                            // appended pair in the proof: each of them must see it
+                            if nx == ny {
+                                for i in (2 + k)..nx {
+                                    res.validated += 1;
+                                    if vx.draws.bytes[i] == vy.draws.bytes[i] {
+                                        res.violate(
+                                            format!("verifier/over-long/{}/challenge{}", mode_name(mode), i),
+                                            format!("challenge #{} of an over-long proof ({} rounds for {}) does not change when the appended L changes ({})", i, k + 1, k, mode_name(mode)),
+                                        );
+                                    }
+                                }
+                            }
+                        }
+                    }
+                }
+            }
+        }
+
         // ---------------- a proof is bound to the context in which it was created
         for c2 in contexts() {
             if c2 == ctx {
@@ -348,7 +390,7 @@ fn batch_case<P: G>(len: usize) -> Box<dyn Case> {
             wit.blindings[0][0] = blinding(7000 + pos, 0);
             let ctx = contexts()[pos % 6];
             let built = build_cached::<P>(&cfg, &wit).honest();
-            proofs.push(lib_prove(&built, &ctx, &mut HRng::chacha(pos as u64)).honest());
+            proofs.push(lib_prove_honest(&built, &ctx, &mut HRng::chacha(pos as u64)));
             sts.push(built.statement.clone());
             ctxs.push(ctx);
         }
